@@ -16,6 +16,7 @@ import itertools
 
 import numpy as np
 
+from checks.c01 import same_nested
 from lib import core
 
 FIXTURES = ["test_full_mc_evt_1.rtraw", "test_full_mc_evt_1.dst", "test_full_mc_evt_1.rec", "test_cgem.rtraw", "test_mrpc.rtraw"]
@@ -151,7 +152,7 @@ def real_bytes(chk: core.Check, thorough: bool):
                         rng.shuffle(keys)
                         try:
                             got = interp.final_array({k: pieces[k] for k in keys}, int(a), int(b), bounds, lib, br, {})
-                            ok = got.tolist() == full[a:b].tolist() and got.fields == full.fields
+                            ok = same_nested(got.tolist(), full[a:b].tolist()) and got.fields == full.fields
                         except Exception as ex:
                             got, ok = f"{type(ex).__name__}: {ex}", False
                         chk.count(1, key=f"{fn}-{name}-{bounds}-{a}-{b}")
@@ -165,7 +166,7 @@ def real_bytes(chk: core.Check, thorough: bool):
                         continue
                     got = br.array(entry_start=a, entry_stop=b)
                     chk.count(1, key=f"api-{fn}-{name}-{a}-{b}")
-                    if got.tolist() != full[a:b].tolist() or got.fields != full.fields:
+                    if not same_nested(got.tolist(), full[a:b].tolist()) or got.fields != full.fields:
                         chk.failing_input("TBranch.array(entry_start, entry_stop)", {"file": fn, "branch": name, "entry_start": a, "entry_stop": b}, {"n": len(got), "fields": got.fields}, {"n": b - a, "fields": full.fields}, "slice of the full read")
                         return
             # chunked iteration + branch subsets, per file
@@ -176,14 +177,14 @@ def real_bytes(chk: core.Check, thorough: bool):
                 chunks = list(tree.iterate(sub, step_size=step))
                 cat = ak.concatenate(chunks)
                 chk.count(len(chunks), key=f"iterate-{fn}-{step}")
-                if cat.tolist() != whole.tolist():
+                if not same_nested(cat.tolist(), whole.tolist()):
                     chk.failing_input("TTree.iterate(step_size)", {"file": fn, "branches": sub, "step_size": step}, f"{len(cat)} entries", f"{len(whole)} entries", "reading in chunks of any size returns the concatenation of the individual reads")
                     return
             for nm in sub:
                 chk.count(1, key=f"subset-{fn}-{nm}")
                 one = tree[nm].array()
                 col = whole[nm.split("/")[-1]] if nm.split("/")[-1] in whole.fields else whole[nm]
-                if one.tolist() != col.tolist():
+                if not same_nested(one.tolist(), col.tolist()):
                     chk.failing_input("reading a subset of branches", {"file": fn, "branch": nm}, "differs", "same column", "reading a subset of branches returns the same columns as reading all of them")
                     return
     # several files at once
@@ -195,7 +196,7 @@ def real_bytes(chk: core.Check, thorough: bool):
             want = ak.concatenate([x, y, x])
             fld = cat.fields[0]
             chk.count(3, key=f"concatenate-{brn}")
-            if cat[fld].tolist() != want.tolist():
+            if not same_nested(cat[fld].tolist(), want.tolist()):
                 chk.failing_input("uproot.concatenate of several files", {"files": [a.name, b.name, a.name], "branch": brn}, f"{len(cat)} entries", f"{len(want)} entries", "several files at once return the concatenation of the individual reads")
     chk.coverage["fixture_branches_repartitioned"] = n_br
 
